@@ -237,7 +237,10 @@ def run_density(spec, rec):
 
     def draw(m):
         forces = np.full((n, 3), f)
-        drv = make_fb(rng, n, forces, delta, T, None, masses=np.full(n, 12.0), adaptive=bool(spec.get("adaptive")), collapsed=True)
+        # two mass classes in the extra shards (default scaling power 0.25): the density of the dimensionless displacement is
+        # the same for light and heavy atoms, the mass enters the step length only
+        mm = np.where(np.arange(n) % 2 == 0, 1.0, 16.0) if spec.get("T") is not None else np.full(n, 12.0)
+        drv = make_fb(rng, n, forces, delta, T, None, masses=mm, adaptive=bool(spec.get("adaptive")), collapsed=True)
         zs = []
         for _ in range(max(1, m // (3 * n))):
             try:
